@@ -9,6 +9,7 @@ import Driver.Script
 import Driver.Chunks
 import Driver.Adpcm
 import Driver.C10
+import Driver.C17
 open Sf
 
 def lawOf (s : String) : Option G711.Law :=
@@ -61,4 +62,5 @@ def main (args : List String) : IO UInt32 := do
   | "c10points" :: _ => Sf.C10Driver.pointsCmd
   | "c10enum" :: _ => Sf.C10Driver.enumCmd
   | "c10fcheck" :: _ => Sf.C10Driver.fcheckCmd
+  | "c17grid" :: rest => C17Driver.main rest
   | _ => IO.eprintln "usage: sfmodel <g711|...> ..."; return 2
